@@ -112,6 +112,9 @@ class Evaluator(object):
             if type(node.op) in self.BIN:
                 a, b = self.ev(node.left), self.ev(node.right)
                 return Arr(bcast(a, b), ("bin", self.BIN[type(node.op)], a.e, b.e))
+            if isinstance(node.op, ast.Pow) and isinstance(node.right, ast.Constant) and node.right.value == 2 and not isinstance(node.right.value, bool):
+                a = self.ev(node.left)
+                return Arr(a.axes, ("bin", "*", a.e, a.e))
             if isinstance(node.op, (ast.BitAnd, ast.BitOr)):
                 a, b = self.ev(node.left), self.ev(node.right)
                 if not (self.is_bool(a.e) and self.is_bool(b.e)):
@@ -150,6 +153,18 @@ class Evaluator(object):
             if not src:
                 raise Untranslatable("too many indices")
             ax = src.pop(0)
+            k = None
+            if isinstance(it, ast.Constant) and isinstance(it.value, int) and not isinstance(it.value, bool):
+                k = it.value
+            elif isinstance(it, ast.UnaryOp) and isinstance(it.op, ast.USub) and isinstance(it.operand, ast.Constant) and isinstance(it.operand.value, int):
+                k = -it.operand.value
+            if k is not None:
+                # one fixed entry of an INPUT vector: a named scalar leaf  name[k]
+                if not (e[0] == "el" and e[2] == () and len(v.axes) == 1 and len(items) == 1):
+                    raise Untranslatable("integer index into a computed array")
+                nm = "%s[%d]" % (e[1], k)
+                self.decl.setdefault(nm, ())
+                return Arr((), ("el", nm, ()))
             if isinstance(it, ast.Slice):
                 if it.step is not None:
                     raise Untranslatable("slice step")
@@ -191,6 +206,17 @@ class Evaluator(object):
         if fn in ("sqrt", "np.sqrt") and len(args) == 1:
             v = self.ev(args[0])
             return Arr(v.axes, ("call", "sqrt", [v.e]))
+        if fn in ("abs", "np.abs") and len(args) == 1:
+            v = self.ev(args[0])
+            return Arr(v.axes, ("call", "abs", [v.e]))
+        if fn == "np.diff" and len(args) == 1:
+            v = self.ev(args[0])
+            if len(v.axes) != 1 or v.axes[0] is None:
+                raise Untranslatable("np.diff of %s" % (v.axes,))
+            return Arr(v.axes, ("bin", "-", shift(v.e, v.axes[0], 1, self.decl), v.e))
+        if isinstance(node.func, ast.Attribute) and node.func.attr == "flatten" and not args:
+            v = self.ev(node.func.value)
+            return Arr(tuple(a for a in v.axes if a is not None), v.e)
         if fn == "np.outer" and len(args) == 2:
             a, b = self.ev(args[0]), self.ev(args[1])
             if len(a.axes) != 1 or len(b.axes) > 1:
@@ -205,9 +231,9 @@ class Evaluator(object):
             return Arr(tuple(a for i, a in enumerate(v.axes) if i != k.value), ("sum", ax, v.e))
         if fn == "np.dot" and len(args) == 2:
             a, b = self.ev(args[0]), self.ev(args[1])
-            if len(b.axes) != 1 or not a.axes or a.axes[-1] != b.axes[0]:
+            if len(b.axes) not in (1, 2) or not a.axes or a.axes[-1] != b.axes[0] or b.axes[0] is None:
                 raise Untranslatable("np.dot of %s and %s" % (a.axes, b.axes))
-            return Arr(a.axes[:-1], ("sum", b.axes[0], ("bin", "*", a.e, b.e)))
+            return Arr(a.axes[:-1] + b.axes[1:], ("sum", b.axes[0], ("bin", "*", a.e, b.e)))
         if isinstance(node.func, ast.Attribute) and node.func.attr == "reshape" and ast.unparse(node).endswith(".reshape((-1, 1))"):
             v = self.ev(node.func.value)
             if len(v.axes) != 1:
@@ -314,6 +340,8 @@ def coq(e, names, lits, sums=None):
         key = ("call:" + e[1], tuple(repr(a) for a in e[2]))
         if key in names:
             return names[key]
+        if ("fn", e[1]) in names:
+            return "(%s %s)" % (names[("fn", e[1])], " ".join(r(a) for a in e[2]))
         raise Untranslatable("function %s" % e[1])
     if t == "sum":
         if not sums or e[1] not in sums:
